@@ -23,10 +23,22 @@
     words by the differential run).
   * `linearizable` gives an order that keeps every thread's program order; real-time order between
     threads is not part of the statement.
+  Round s3 (appended at the end of this file): `linearizable_realtime` adds real-time order;
+  `acc_linearizable_prims`, `acc_no_lost_flag_update`, `acc_closed_stays`, `acc_closed_dominates_partial`
+  cover ALL methods (as their access programs, XMT.StateAcc) under all schedules at the level of
+  read-modify-write primitives; `setChannel_not_linearizable`, `setChannel_off_no_linearization_point`,
+  `tag_not_linearizable`, `ready_not_linearizable` prove that SetChannel / Tag / the Closed()-then-load
+  predicates are NOT linearizable as single operations (known findings, replayed on the real code);
+  `access_lists_match_source`, `model_accesses_follow_source` tie every method's access list to the source.
 -/
+import XMT.TieXlateState
 import XMT.StateLemmas
 import XMT.StateConcLemmas
 import XMT.StateAccLemmas
+import XMT.StateRT
+import XMT.StateAccLin
+import XMT.StateAccShape
+import XMT.StateAccInv
 namespace XMT.Props.C13
 open XMT XMT.State XMT.StateConc
 
@@ -470,5 +482,271 @@ example :
       [0, 1, 2, 2, 0, 1, 0, 1, 2, 0, 1, 1, 2, 2]
     s.completed = true ∧ s.casFail = 4 ∧ s.mem = stReady ∧ s.thr.map (·.rets) = [[true], [false], [true, false]] := by
   decide
+
+
+/-! ## round s3: real-time order, call-level (non-)linearizability of the multi-access methods -/
+
+/-- **Linearizability with real-time order.** `runT` is the machine `run` with ghost clocks
+(`StateRT.runT_sys`: erasing them gives `run` on the same schedule): every call that took effect is
+logged with the schedule position `inv` of its FIRST shared-memory access and `fin` of its LAST one
+(`inv ≤ fin < |sched|`), so "A returned before B was invoked" implies `A.fin < B.inv`.  For every
+initial word, all programs and EVERY schedule the log, with the clocks erased, is the linearization
+`lin` of `linearizable` (legal from `w`, ends in the current word, per-thread program order and
+results), and it respects real time: whenever `lin[i].fin < lin[j].inv`, call `i` precedes call `j`
+in the linearization.  (Calls of one thread never overlap: the earlier one's `fin` is below the later
+one's `inv`, so program order is the special case.) -/
+theorem linearizable_realtime (w : Nat) (progs : List (List Op)) (sched : List Nat) :
+    let ts := StateRT.runT (StateRT.TSys.init w progs) sched
+    let s := run (Sys.init w progs) sched
+    ts.sys = s ∧ ts.thist.map (·.ev) = s.hist ∧
+    Lin w (ts.thist.map (·.ev)) s.mem ∧
+    (∀ t th, s.thr[t]? = some th → ∃ p, progs[t]? = some p ∧
+      (proj t (ts.thist.map (·.ev))).map (·.op) ++ th.ops = p ∧ th.rets = (proj t (ts.thist.map (·.ev))).map (·.ret)) ∧
+    (∀ te ∈ ts.thist, te.inv ≤ te.fin ∧ te.fin < sched.length) ∧
+    (∀ i j (hi : i < ts.thist.length) (hj : j < ts.thist.length), ts.thist[i].fin < ts.thist[j].inv → i < j) ∧
+    (∀ i j (hi : i < ts.thist.length) (hj : j < ts.thist.length), i < j →
+      ts.thist[i].ev.tid = ts.thist[j].ev.tid → ts.thist[i].fin < ts.thist[j].inv) := by
+  intro ts s
+  have hT : StateRT.TInv ts := StateRT.tinv_run (StateRT.tinv_init w progs) sched
+  have hsys : ts.sys = s := StateRT.runT_sys _ sched
+  have hI : Inv w progs s := inv_run (inv_init w progs) sched
+  have he : ts.thist.map (·.ev) = s.hist := by rw [← hsys]; exact hT.erase
+  have hnow : ts.now = sched.length := by
+    have := StateRT.runT_now (StateRT.TSys.init w progs) sched
+    rw [this]; simp [StateRT.TSys.init]
+  refine ⟨hsys, he, ?_, ?_, ?_, ?_, ?_⟩
+  · rw [he]; exact hI.lin
+  · rw [he]; exact hI.thr
+  · intro te hte
+    have := hT.bound te hte
+    exact ⟨this.1, by rw [← hnow]; exact this.2⟩
+  · exact StateRT.realtime_of_sorted hT.sorted (fun te hte => (hT.bound te hte).1)
+  · intro i j hi hj hij
+    exact List.pairwise_iff_getElem.mp hT.prog i j hi hj hij
+
+/-- non-vacuity of `linearizable_realtime`: two threads, thread 1's first call overlaps thread 0's
+(failed compare-and-swap, retry), thread 0's second call starts after thread 1 returned: the log
+is (thread, inv, fin) = (1,1,2), (0,0,5), (0,6,7). -/
+example :
+    let ts := StateRT.runT (StateRT.TSys.init 0 [[.set stClosing, .set stSeen], [.set stReady]]) [0, 1, 1, 0, 0, 0, 0, 0]
+    ts.thist.map (fun te => (te.ev.tid, te.inv, te.fin)) = [(1, 1, 2), (0, 0, 5), (0, 6, 7)] ∧
+    ts.sys.completed = true ∧ ts.sys.casFail = 1 := by decide
+
+
+/-! ### proved negations: the multi-access methods are not linearizable as single operations -/
+
+/-- **`SetChannel` is not linearizable as one operation** (proved negation; finding
+`not-linearizable:SetChannel:both-report-changed`).  Two threads call `SetChannel(true)` on word 0;
+both perform their `ChannelValue()` load before either performs its `Set`: both return `true`
+("changed"), whereas in each of the two sequential orders the second call meets the standing request
+and returns `false`.  The final word is the sequential one — only the report is duplicated (in c2 the
+one caller, `Session.SetChannel`, then queues the channel packet twice). -/
+theorem setChannel_not_linearizable :
+    let progs : List (List StateAcc.Call) := [[.setChannel true], [.setChannel true]]
+    let s := StateAcc.runA (StateAcc.ASys.init 0 progs) [0, 1, 0, 0, 0, 0, 1, 1, 1, 1]
+    s.completed = true ∧ s.thr.map (·.rets) = [[1], [1]] ∧ s.mem = stChannelValue ||| stChannelUpdated ∧
+    StateAccLin.seqOutcomes 0 progs = [(stChannelValue ||| stChannelUpdated, [[1], [0]]), (stChannelValue ||| stChannelUpdated, [[0], [1]])] ∧
+    StateAccLin.linearizableA 0 progs [0, 1, 0, 0, 0, 0, 1, 1, 1, 1] = false := by decide
+
+/-- **`SetChannel(false)` has no linearization point** (proved negation; finding
+`not-linearizable:SetChannel:off-straddles`): its guard `(!Channel() || !ChannelProxy()) &&
+!ChannelValue()` is three loads.  Word = `ChannelValue`; thread 0 loads `Channel` (clear), thread 1
+runs `Set(Channel|ChannelProxy)` and `Unset(ChannelValue)`, thread 0 loads `ChannelValue` (clear now)
+and returns `false` ("nothing to cancel") without raising the notice — yet at every moment of the
+execution the request differed from the standing one (`standing _ false = false` on all three words
+the memory ever held), and every sequential order returns `true` and raises the notice. -/
+theorem setChannel_off_no_linearization_point :
+    let progs : List (List StateAcc.Call) :=
+      [[.setChannel false], [.prim (.set (stChannel ||| stChannelProxy)), .prim (.unset stChannelValue)]]
+    let s := StateAcc.runA (StateAcc.ASys.init stChannelValue progs) [0, 1, 1, 1, 1, 0]
+    s.completed = true ∧ s.thr.map (·.rets) = [[0], [1, 1]] ∧ s.mem = stChannel ||| stChannelProxy ∧
+    standing stChannelValue false = false ∧ standing (stChannelValue ||| stChannel ||| stChannelProxy) false = false ∧
+    standing (stChannel ||| stChannelProxy) false = false ∧
+    (∀ o ∈ StateAccLin.seqOutcomes stChannelValue progs, o = (stChannel ||| stChannelProxy ||| stChannelUpdated, [[1], [1, 1]])) ∧
+    StateAccLin.linearizableA stChannelValue progs [0, 1, 1, 1, 1, 0] = false := by decide
+
+/-- **`Tag` is not linearizable with two concurrent taggers** (proved negation; finding
+`not-linearizable:Tag:both-report-seen`): `Seen()` load, then `Unset(stateSeen)` — both callers load
+before either clears, both return `true`; sequentially exactly one does.  (In c2 `Tag` is only called
+from `Proxy.tags`, i.e. from `Session.next` on the session's own goroutine: one tagger at a time.) -/
+theorem tag_not_linearizable :
+    let progs : List (List StateAcc.Call) := [[.tag], [.tag]]
+    let s := StateAcc.runA (StateAcc.ASys.init stSeen progs) [0, 1, 0, 0, 1, 1]
+    s.completed = true ∧ s.thr.map (·.rets) = [[1], [1]] ∧ s.mem = 0 ∧
+    StateAccLin.seqOutcomes stSeen progs = [(0, [[1], [0]]), (0, [[0], [1]])] ∧
+    StateAccLin.linearizableA stSeen progs [0, 1, 0, 0, 1, 1] = false := by decide
+
+/-- **A two-load predicate can report a combination that never existed** (proved negation; finding
+`not-linearizable:Ready:straddles-close`): `Ready()` loads `Closed` (clear), another thread runs
+`Set(stateClosed)` and then `Set(stateReady)`, `Ready()` loads `Ready` (set) and returns `true` — the
+word was never "ready and not closed" (it was 0, closed, closed|ready), every sequential order
+returns `false`, and the call returns `true` after the session was closed.  Needs a flag set after
+the closed flag; what does hold: `acc_closed_stays`, `acc_closed_dominates_partial` below. -/
+theorem ready_not_linearizable :
+    let progs : List (List StateAcc.Call) := [[.ready], [.prim (.set stClosed), .prim (.set stReady)]]
+    let s := StateAcc.runA (StateAcc.ASys.init 0 progs) [0, 1, 1, 1, 1, 0]
+    s.completed = true ∧ s.thr.map (·.rets) = [[1], [1, 1]] ∧ s.mem = stClosed ||| stReady ∧
+    ready 0 = false ∧ ready stClosed = false ∧ ready (stClosed ||| stReady) = false ∧
+    (∀ o ∈ StateAccLin.seqOutcomes 0 progs, o = (stClosed ||| stReady, [[0], [1, 1]])) ∧
+    StateAccLin.linearizableA 0 progs [0, 1, 1, 1, 1, 0] = false := by decide
+
+
+/-! ### tie: the access lists of every method, regenerated from the source -/
+
+/-- **Tie of the access lists.** For every method of `*state` in c2/state.go the flattened sequence
+of `atomic.LoadUint32` (1) / `CompareAndSwapUint32` (3) calls and retry loops (4 … 5), callee
+methods inlined, regenerated from the current source by go/parser, IS the model's table
+`StateAccShape.accessLists` (26 methods).  One more or one fewer access, a reordered one, a
+`Store` (2), another atomic primitive (6), a new or renamed method: this no longer checks. -/
+theorem access_lists_match_source : Facts.c13AccessLists = StateAccShape.accessLists := by decide
+
+/-- …and the access programs of the interleaving model follow that table: for EVERY call and
+EVERY word, the accesses the program `c.meth` performs when it runs alone (`trace`: 1 per load; 4 1 3 5
+per pass of a read-modify-write loop, 4 1 5 when it returns early) are a sublist of the row of each
+source method the call stands for — the program takes one path through the source, never an access
+the source does not have, never in another order. -/
+theorem model_accesses_follow_source (c : StateAcc.Call) (w : Nat) :
+    (StateAccShape.Call.fns c).all (StateAccShape.within (StateAccShape.trace 8 c.meth w)) = true :=
+  StateAccShape.trace_sublist c w
+
+/-- coverage: the rows are reached in full (one word per row; the two rows with exclusive branches —
+`ChannelCanStop`, `SetChannel` — by the words of their branches) -/
+example :
+    StateAccShape.trace 8 (StateAcc.Call.canRecv).meth stCanRecv = [1, 1, 1, 1] ∧
+    StateAccShape.trace 8 (StateAcc.Call.canStart).meth 0 = [1, 1, 1] ∧
+    StateAccShape.trace 8 (StateAcc.Call.tag).meth stSeen = [1, 4, 1, 3, 5] ∧
+    StateAccShape.trace 8 (StateAcc.Call.canStop).meth (stChannel ||| stChannelUpdated) = [1, 1, 1, 4, 1, 3, 5, 1] ∧
+    StateAccShape.trace 8 (StateAcc.Call.canStop).meth stChannel = [1, 1, 1, 4, 1, 5, 1] ∧
+    StateAccShape.trace 8 (StateAcc.Call.setChannel true).meth 0 = [1, 4, 1, 3, 5, 4, 1, 3, 5] ∧
+    StateAccShape.trace 8 (StateAcc.Call.setChannel false).meth (stChannel ||| stChannelValue) = [1, 1, 1, 4, 1, 3, 5, 4, 1, 3, 5] ∧
+    StateAccShape.trace 8 (StateAcc.Call.ready).meth 0 = [1, 1] ∧
+    StateAccShape.trace 8 (StateAcc.Call.dom stClosing).meth 0 = [1, 1] ∧
+    StateAccShape.trace 8 (StateAcc.Call.prim (.trySet stClosing)).meth 0 = [4, 1, 3, 5] := by decide
+
+
+/-! ### all methods (SetChannel, Tag, ChannelCanStop, the multi-load predicates) under all schedules -/
+
+/-- **Every interleaving of ALL methods is a sequential history of read-modify-write primitives.**
+Threads run arbitrary programs over every method of c2/state.go, each method being the sequence of
+atomic loads and compare-and-swap loops the source performs (`StateAcc.Call.meth`; `SetChannel` =
+1–3 loads + two loops, `Tag` = load + loop, `ChannelCanStop` = 3 loads + loop + load, …).  For EVERY
+schedule there is a history `lin` of primitives (`Set` / `Unset` / `SetLast` / `tryUnset` / `trySet`,
+called directly or from inside a compound method) that is a legal sequential execution from the
+initial word ending in the current word, in which every primitive belongs to a call of the issuing
+thread's program (`Call.prims`), and which contains every directly called primitive that has
+returned.  Consequently no compound method can lose or corrupt what another thread's primitive did:
+the word is always the result of applying whole primitives one after the other. -/
+theorem acc_linearizable_prims (w : Nat) (progs : List (List StateAcc.Call)) (sched : List Nat) :
+    let s := StateAcc.runA (StateAcc.ASys.init w progs) sched
+    ∃ lin, Lin w lin s.mem ∧ s.thr.length = progs.length ∧
+      (∀ e ∈ lin, ∃ p, progs[e.tid]? = some p ∧ ∃ c ∈ p, e.op ∈ StateAccInv.Call.prims c) ∧
+      ∀ t th, s.thr[t]? = some th → ∃ done, progs[t]? = some (done ++ th.calls) ∧
+        ∀ op, StateAcc.Call.prim op ∈ done → ∃ e ∈ lin, e.op = op ∧ e.tid = t := by
+  intro s
+  have hi := StateAccInv.ginv_run (StateAccInv.ginv_init w progs) sched
+  have hs : (StateAccInv.runG (StateAccInv.GSys.init w progs) sched).sys = s := StateAccInv.runG_sys _ sched
+  rw [← hs]
+  refine ⟨_, hi.lin, hi.len, hi.ops, ?_⟩
+  intro t th ht
+  obtain ⟨done, h1, h2, _⟩ := hi.thr t th ht
+  exact ⟨done, h1, h2⟩
+
+/-- **No update of another flag is lost, whatever compound methods run next to it.**  Flag bit
+`k < 16`; no call of any thread can clear it (`Call.prims`: `SetChannel(false)` clears only
+ChannelValue, `Tag` only Seen, `ChannelCanStop` only ChannelUpdated).  Then under EVERY schedule:
+if the bit was set initially it is set in every intermediate word, and once a thread has returned
+from a direct `Set` / `trySet` of it (`done`), it is set — `SetChannel`, `Tag`, `ChannelCanStop` and
+the predicates in flight in other threads notwithstanding.  Dually for clears. -/
+theorem acc_no_lost_flag_update (w : Nat) (progs : List (List StateAcc.Call)) (sched : List Nat) (k : Nat) (hk : k < 16) :
+    let s := StateAcc.runA (StateAcc.ASys.init w progs) sched
+    ((∀ p ∈ progs, ∀ c ∈ p, ∀ op ∈ StateAccInv.Call.prims c, op.clears k = false) →
+      (w.testBit k = true → s.mem.testBit k = true) ∧
+      (∀ (t : Nat) (th : StateAcc.AThread) (done : List StateAcc.Call) (op : Op), s.thr[t]? = some th → progs[t]? = some (done ++ th.calls) → StateAcc.Call.prim op ∈ done →
+        op.sets k = true → s.mem.testBit k = true)) ∧
+    ((∀ p ∈ progs, ∀ c ∈ p, ∀ op ∈ StateAccInv.Call.prims c, op.sets k = false) →
+      (w.testBit k = false → s.mem.testBit k = false) ∧
+      (∀ (t : Nat) (th : StateAcc.AThread) (done : List StateAcc.Call) (op : Op), s.thr[t]? = some th → progs[t]? = some (done ++ th.calls) → StateAcc.Call.prim op ∈ done →
+        op.clears k = true → s.mem.testBit k = false)) := by
+  intro s
+  have hi := StateAccInv.ginv_run (StateAccInv.ginv_init w progs) sched
+  have hs : (StateAccInv.runG (StateAccInv.GSys.init w progs) sched).sys = s := StateAccInv.runG_sys _ sched
+  rw [← hs]
+  have hmem : ∀ {P : Op → Prop}, (∀ p ∈ progs, ∀ c ∈ p, ∀ op ∈ StateAccInv.Call.prims c, P op) →
+      ∀ e ∈ (StateAccInv.runG (StateAccInv.GSys.init w progs) sched).hist, P e.op := by
+    intro P h e he
+    obtain ⟨p, hp, c, hc, hop⟩ := hi.ops e he
+    exact h p (List.mem_of_getElem? hp) c hc _ hop
+  have hdone : ∀ (t : Nat) (th : StateAcc.AThread) (done : List StateAcc.Call) (op : Op), (StateAccInv.runG (StateAccInv.GSys.init w progs) sched).sys.thr[t]? = some th →
+      progs[t]? = some (done ++ th.calls) → StateAcc.Call.prim op ∈ done →
+      ∃ e ∈ (StateAccInv.runG (StateAccInv.GSys.init w progs) sched).hist, e.op = op := by
+    intro t th done op ht hp hop
+    obtain ⟨done', h1, h2, _⟩ := hi.thr t th ht
+    rw [hp] at h1
+    have : done = done' := List.append_cancel_right (Option.some.inj h1)
+    subst this
+    obtain ⟨e, he, h, _⟩ := h2 op hop
+    exact ⟨e, he, h⟩
+  constructor
+  · intro hc
+    refine ⟨fun hw => lin_bit_set hi.lin hk (hmem hc) (Or.inl hw), ?_⟩
+    intro t th done op ht hp hop hsets
+    obtain ⟨e, he, rfl⟩ := hdone t th done op ht hp hop
+    exact lin_bit_set hi.lin hk (hmem hc) (Or.inr ⟨e, he, hsets⟩)
+  · intro hc
+    refine ⟨fun hw => lin_bit_clear hi.lin hk (hmem hc) (Or.inl hw), ?_⟩
+    intro t th done op ht hp hop hcl
+    obtain ⟨e, he, rfl⟩ := hdone t th done op ht hp hop
+    exact lin_bit_clear hi.lin hk (hmem hc) (Or.inr ⟨e, he, hcl⟩)
+
+/-- **'closed' stays, at every intermediate state, under all methods**: if no call of any program
+clears the closed flag (no call site in c2 does), a closed word is closed after every prefix of every
+schedule — `SetChannel`, `Tag`, `ChannelCanStop`, `SetLast` and all flag traffic included. -/
+theorem acc_closed_stays (w : Nat) (progs : List (List StateAcc.Call)) (sched : List Nat)
+    (hc : ∀ p ∈ progs, ∀ c ∈ p, ∀ op ∈ StateAccInv.Call.prims c, op.clears kClosed = false)
+    (hw : closed w = true) : closed (StateAcc.runA (StateAcc.ASys.init w progs) sched).mem = true := by
+  have h := ((acc_no_lost_flag_update w progs sched kClosed kClosed_lt).1 hc).1
+  rw [closed, has_stClosed] at hw ⊢
+  exact h hw
+
+/-- **'closed' dominates, access by access** (partial): every dominated method starts with the
+`Closed()` load, and if that load sees a closed word the method returns the dominated answer at
+once, without a further access.  With `acc_closed_stays` (every load of a run that started closed
+sees a closed word) this is why a call on a closed session answers as closed under every schedule. -/
+theorem acc_closed_dominates_partial (c : StateAcc.Call) (v : Nat) (hv : StateAccInv.closedAnswer c = some v) :
+    ∃ k, c.meth = .load k ∧ ∀ w, closed w = true → k w = .ret v := by
+  cases c <;> simp only [StateAccInv.closedAnswer] at hv <;> cases hv <;> refine ⟨_, rfl, ?_⟩ <;> intro w hw <;>
+    simp only [closed] at hw <;> simp [hw, StateAcc.b2n]
+-- OPEN: the composed statement — for all programs without a call that clears the closed flag, all
+-- schedules and a closed initial word, every result of a call `c` with `StateAccInv.closedAnswer c = some v`
+-- recorded in `rets` equals `v` — needs the results aligned with the calls in the invariant; it is
+-- checked on the real code by the oracles `closed-dominates-concurrent:*` (groups acc, s3lin).
+
+/-- non-vacuity: SetChannel(true) in flight (its load done, both loops pending) while thread 1 sets
+Ready and thread 2 runs Tag; every prefix keeps Ready once set, and the final word has all updates -/
+example :
+    let progs : List (List StateAcc.Call) := [[.setChannel true], [.prim (.set stReady)], [.tag]]
+    let s := StateAcc.runA (StateAcc.ASys.init stSeen progs) [0, 2, 1, 0, 1, 0, 2, 2, 0, 0, 0, 0]
+    s.completed = true ∧ s.mem = stReady ||| stChannelValue ||| stChannelUpdated ∧ s.casFail = 1 ∧
+    (∀ p ∈ progs, ∀ c ∈ p, ∀ op ∈ StateAccInv.Call.prims c, op.clears kReady = false) := by decide
+
+/-! ### regenerated source (session 3): the read-only predicates of c2/state.go are translated from
+the CURRENT source on every run (go/cmd/xmth/xlate.go → Facts.x_c2_state_*) -/
+
+/-- The hand-written predicates of the model (XMT/State.lean, the list the differential run compares
+with the real code) are, for every word, exactly the regenerated translations of the source's own
+predicate functions: a change of any mask or connective in c2/state.go changes the right-hand side
+and this theorem no longer checks. -/
+theorem src_state_predicates (s : Nat) : State.predicates s =
+    [Facts.x_c2_state_Seen s, Facts.x_c2_state_Ready s, Facts.x_c2_state_Moving s, Facts.x_c2_state_Closed s,
+     Facts.x_c2_state_CanRecv s, Facts.x_c2_state_Closing s, Facts.x_c2_state_Channel s,
+     Facts.x_c2_state_Shutdown s, Facts.x_c2_state_Replacing s, Facts.x_c2_state_RecvClosed s,
+     Facts.x_c2_state_SendClosed s, Facts.x_c2_state_WakeClosed s, Facts.x_c2_state_ShutdownWait s,
+     Facts.x_c2_state_ChannelValue s, Facts.x_c2_state_ChannelProxy s, Facts.x_c2_state_ChannelUpdated s,
+     Facts.x_c2_state_ChannelCanStart s] :=
+  XMT.TieXlateState.predicates_eq s
+
+/-- … and the 16-bit `Last` field accessor likewise. -/
+theorem src_state_last (s : Nat) : Facts.x_c2_state_Last s = State.last s :=
+  XMT.TieXlateState.x_c2_state_Last_eq s
 
 end XMT.Props.C13
